@@ -47,6 +47,10 @@ def main():
         if os.environ.get("VMON_COVMAP"):
             lm = reach.LineMap(src)
             lm.arm()
+        am = None
+        if os.environ.get("VMON_ARGMAP"):
+            am = reach.ArgMap(src)
+            am.arm()
         if hasattr(mod, "setup"):
             st = mod.setup(ctx)
             if st:
@@ -92,6 +96,10 @@ def main():
         os.makedirs(os.environ["VMON_COVMAP"], exist_ok=True)
         with open(os.path.join(os.environ["VMON_COVMAP"], f"{prop}_{tier}_{os.getpid()}.json"), "w") as f:
             json.dump(lm.report(), f)
+    if am is not None:
+        os.makedirs(os.environ["VMON_ARGMAP"], exist_ok=True)
+        with open(os.path.join(os.environ["VMON_ARGMAP"], f"{prop}_{tier}_{os.getpid()}.json"), "w") as f:
+            json.dump(am.report(), f)
     if hasattr(mod, "teardown"):
         meta.update(mod.teardown(ctx) or {})
     emit(meta)
